@@ -428,7 +428,8 @@ func genJunk(t *rapid.T) []int {
 // genLayout draws a random layout; tape bytes are biased towards 0 (the canonical choice).
 func genLayout(t *rapid.T) Layout {
 	lay := Layout{
-		Unit:      rapid.SampledFrom([]int{4, 4, 2, 1, 3, 8, 0, 0, -1}).Draw(t, "unit"),
+		Unit:      rapid.SampledFrom([]int{4, 4, 2, 1, 3, 8, 0, 0, -1, -2}).Draw(t, "unit"),
+		MixedEnds: rapid.IntRange(0, 4).Draw(t, "mixedends") == 0,
 		CRLF:      rapid.IntRange(0, 3).Draw(t, "crlf") == 0,
 		FlatIf:    rapid.IntRange(0, 2).Draw(t, "flatif") == 0,
 		NoFinalNL: rapid.IntRange(0, 4).Draw(t, "nofinalnl") == 0,
